@@ -1,6 +1,6 @@
 (* C07 — readers deliver the stream exactly once, in order, however it is consumed.
    Full statements; proofs in Main_proofs.v (reader refinement) and Cursor_proofs.v (histories). *)
-From FlacReaders Require Import Spec Lists_proofs Main_proofs Examples.
+From FlacReaders Require Import Spec Lists_proofs Ser_proofs Deint_proofs Main_proofs Examples.
 Open Scope N_scope.
 
 (* Byte reader (either byte order): for every valid file and every seek-free history over
@@ -37,28 +37,44 @@ Theorem C07_bytes_vs_samples : forall F,
   pcm_bytes F = ser (f_endian F) (bytes_per_sample (f_bps F)) (pcm F).
 Proof. reflexivity. Qed.
 
+(* ... and Ser (Frame::to_buf with byteorder.rs, incl. the hand-written 24-bit routines) is the
+   two's-complement encoding, least significant byte first / reversed for big-endian, of every
+   sample that fits the stream's bits-per-sample (1..32), at the width bits.div_ceil(8). *)
+Theorem C07_ser_twos_complement : forall e bps xs,
+  1 <= bps <= 32 -> Forall (fits (Z.of_N bps)) xs ->
+  ser e (bytes_per_sample bps) xs = concat (map (twos_complement e (bytes_per_sample bps)) xs).
+Proof. exact ser_twos_complement. Qed.
+
+(* The channel reader's stream for channel c is the de-interleaved sample stream: sample i of
+   channel c is interleaved sample i * channels + c. *)
+Theorem C07_channels_deinterleaved : forall F c, valid_file F -> (c < N.to_nat (f_channels F))%nat ->
+  lenN (chan_pcm F c) = total_frames F /\ lenN (pcm F) = total_frames F * f_channels F /\
+  forall i, (i < N.to_nat (total_frames F))%nat ->
+    nth_error (chan_pcm F c) i = nth_error (pcm F) (i * N.to_nat (f_channels F) + c).
+Proof. exact chan_pcm_deinterleaved. Qed.
+
 (* ---- non-vacuity: a concrete valid file and a history that satisfies every hypothesis, runs to
    the end of the stream and polls past it *)
 Example C07_nonvacuous :
   valid_file (ex_file Repaired) /\ no_sseek ex_sample_ops /\
   Forall sop_ok (snd (sample_run (ex_file Repaired) ex_sample_ops)) /\
-  pcm (ex_file Repaired) = [1; -1; 2; -2; 3; -3; 4; -4; 5; -5; 6; -6; 700; -700; 8; -8]%Z /\
+  lenN (pcm (ex_file Repaired)) = 64 /\ seg 0 6 = [1; -100; 2; -99; 3; -98]%Z /\
   outs (snd (sample_run (ex_file Repaired) ex_sample_ops)) =
-    [OSamples [1; -1; 2; -2]%Z; OSamples [3; -3]%Z; OUnit; OSamples []; OItem (Some (-3)%Z);
-     OSamples [4; -4; 5; -5; 6; -6]%Z; OUnit; OSamples [700; -700; 8; -8]%Z; OSamples [];
+    [OSamples (seg 0 4); OSamples (seg 4 26); OUnit; OSamples []; OItem (Some (-86)%Z);
+     OSamples (seg 30 30); OUnit; OSamples (seg 60 4); OSamples [];
      OSamples []; OItem None; OSamples []].
 Proof.
   split; [exact ex_file_valid|]. split; [repeat constructor|].
-  split; [forall_trace|]. split; vm_compute; reflexivity.
+  split; [forall_trace|]. repeat split; vm_compute; reflexivity.
 Qed.
 
 (* ---- the defect of the original revision (F-C07a), as a computation on the model:
    after end of stream the channel reader hands out the last frame again *)
 Example C07_orig_redelivers_last_frame :
-  outs (snd (chan_run (ex_file Orig) [CFill; CConsume 3; CFill; CConsume 3; CFill; CConsume 2; CFill; CFill])) =
-    [OChans [[1; 2; 3]; [-1; -2; -3]]%Z; OUnit; OChans [[4; 5; 6]; [-4; -5; -6]]%Z; OUnit;
+  outs (snd (chan_run (ex_file Orig) [CFill; CConsume 15; CFill; CConsume 15; CFill; CConsume 2; CFill; CFill])) =
+    [OChans (cseg 0 15); OUnit; OChans (cseg 15 15); OUnit;
      OChans [[700; 8]; [-700; -8]]%Z; OUnit; OChans [[]; []]; OChans [[700; 8]; [-700; -8]]%Z] /\
-  outs (snd (chan_run (ex_file Repaired) [CFill; CConsume 3; CFill; CConsume 3; CFill; CConsume 2; CFill; CFill])) =
-    [OChans [[1; 2; 3]; [-1; -2; -3]]%Z; OUnit; OChans [[4; 5; 6]; [-4; -5; -6]]%Z; OUnit;
+  outs (snd (chan_run (ex_file Repaired) [CFill; CConsume 15; CFill; CConsume 15; CFill; CConsume 2; CFill; CFill])) =
+    [OChans (cseg 0 15); OUnit; OChans (cseg 15 15); OUnit;
      OChans [[700; 8]; [-700; -8]]%Z; OUnit; OChans [[]; []]; OChans [[]; []]].
 Proof. split; vm_compute; reflexivity. Qed.
